@@ -1,6 +1,7 @@
 # C02 -- every asynchronous operation completes exactly once (DESIGN 5/C02)
 import random, re
 from vlib import *
+from c02_opkinds import run_opkinds
 
 KEY_LATE = "aio-late-abort-result"
 
@@ -96,6 +97,7 @@ def oracle(case, out):
     last_begin_ok = {}
     vnow, tmo, deadline, abort5 = 0, {}, {}, set()
     INF = float("inf")
+    kind, retire_on_cb = {}, set()
     absx = {}      # aio -> (absolute expiry pending for the next operation | INF, set while an operation was in flight?)
     for i, line in enumerate(case):
         t = line.split()
@@ -119,7 +121,10 @@ def oracle(case, out):
             # Core/AioDeadline.sp_step: applies to the next operation started on the aio (unless a timeout is set,
             # or an operation is started or completed, in between).  Set while an operation is in flight, whether it
             # survives depends on how that operation ends: then both readings are allowed below.
-            absx[k] = (INF if t[0] == "expnever" else vnow + int(t[2]), sub.get(k, 0) != cbn.get(k, 0))
+            inflight = sub.get(k, 0) != cbn.get(k, 0)
+            absx[k] = (INF if t[0] == "expnever" else vnow + int(t[2]), inflight and kind.get(k) == "sleep")
+            if inflight and kind.get(k) == "begin":
+                retire_on_cb.add(k)        # a provider operation always ends in nni_aio_finish: that retires the expiry
         if t[0] == "abort" and int(t[2]) == 5:
             abort5.add(k)
         if t[0] in ("begin", "sleep") and pfx != "busy" and pfx != "noaio":
@@ -133,6 +138,8 @@ def oracle(case, out):
                 a_t, unsure = absx[k]
                 rel = min(a_t, rel) if unsure else a_t
             absx.pop(k, None)
+            retire_on_cb.discard(k)
+            kind[k] = t[0]
             deadline[k] = None if rel == INF else rel
             sub[k] = sub.get(k, 0) + 1
             if t[0] == "begin":
@@ -148,6 +155,9 @@ def oracle(case, out):
                 a, rv = x.split(":")
                 a = int(a[1:]); rv = int(rv)
                 cbn[a] = cbn.get(a, 0) + 1
+                if a in retire_on_cb:
+                    retire_on_cb.discard(a)
+                    absx.pop(a, None)
                 if cbn[a] > sub.get(a, 0):
                     return (i, "callback ran more often than operations were started (a%d)" % a)
                 if a in pending_fin:
@@ -192,7 +202,9 @@ def run(tier, seed, replay=None):
     rng = random.Random(seed)
     # ---- 1. scripted, sequential: implementation vs model vs oracle
     n = 150 if tier == "quick" else 4000
-    if replay:
+    if replay and os.path.basename(replay).startswith("opkinds_"):
+        cases = []          # a scenario of checks/c02_opkinds.py: replayed there
+    elif replay:
         cases = [[l.strip() for l in open(replay) if l.strip() and not l.startswith("#")]]
     else:
         cases = load_corpus("C02") + [gen_case(rng) for _ in range(n)]
@@ -310,6 +322,7 @@ def run(tier, seed, replay=None):
     if tot_bad > 0:
         p = rep.replay_file("late_abort_stress.txt", "under concurrent stress %d of %d callbacks read a result other than the one the operation completed with\n(an abort arriving between completion and callback overwrites a_result: nni_aio_abort with a_cancel_fn == NULL)\nreplay: echo 'stress %d 300 4 4' | wb_aio\n" % (tot_bad, tot_sub, seed * 1000))
         rep.violation(p, "callback read a result other than the completion's (%d of %d under stress)" % (tot_bad, tot_sub), key=KEY_LATE)
+    rep.cov["opkinds"] = run_opkinds(rep, bdir, tier, seed, replay)   # real providers vs the provider contract (checks/c02_opkinds.py)
     if not proof_ok and not rep.violations:
         proof_broken_report(rep, cb, "C02 theorems do not check (%s)" % ("; ".join(gate[:3]) if gate else msg if not ok else "see log"))
     rep.cov.update({"distinct_nontrivial": len(set(hash(tuple(c)) for c in cases)),
@@ -318,7 +331,7 @@ def run(tier, seed, replay=None):
                     "stress_operations": tot_sub, "stress_callbacks_with_foreign_result": tot_bad,
                     "expire_batch_probe": probe_out, "directed_probe": directed_out, "scripted_cases": len(cases), "scripted_divergences": len(diverged),
                     "rule": "scripted: random sequences of begin/finish/cancel/abort/sleep/timeouts/advance(virtual clock)/stop on 1-3 aios with a test provider over the public provider API, implementation vs model line by line + oracle (exactly once, results, stop, no early timeout); stress: 4-8 threads of random concurrent operations on 4-7 aios with the H2 trace on, every logged critical section replayed through the extracted AioFw.fw_step, per-aio submission/callback counters",
-                    "samples": [cases[0][:14]],
+                    "samples": [cases[0][:14]] if cases else [],
                     "observations": ["nni_aio_reset writes a_abort/a_result/a_expire_ok/a_sleep without eq_mtx and races with nni_aio_abort (counted as unlocked_reset_races, not a conformance failure)"]})
     rep.assumptions += ["mutual exclusion of eq_mtx/task_mtx and condition-variable semantics are trusted", "the test provider honours the provider contract (finish at most once per successful start)",
                         "prep+start of nni_aio_start are modelled as one step"]
